@@ -122,25 +122,40 @@ def gen_table(rng, columns, nrows, value_kind='any', null_rate=0.15, na_tokens=(
 # abstract documents (core fragment) and their R2RML rendering
 # ----------------------------------------------------------------------------------------------------
 
-def gen_template(rng, columns, iri, nrefs=None, with_escapes=True):
-    """a well-formed template: literal segments + {col} references (+ escaped braces)"""
+def esc_brace(s):
+    return s.replace('{', '\\{').replace('}', '\\}')
+
+
+def render_tpl(tpl):
+    """concrete R2RML template syntax of an abstract template (Spec.Tpl.render)"""
+    return esc_brace(tpl['pre']) + ''.join('{' + r + '}' + esc_brace(l) for r, l in tpl['parts'])
+
+
+def gen_tpl(rng, columns, iri, nrefs=None, with_escapes=True):
+    """an abstract template: literal prefix + (reference, following literal) pairs"""
     nrefs = rng.randrange(1, 4) if nrefs is None else nrefs
-    parts = ['http://ex.org/' if iri else '']
+    pre = ('http://ex.org/' if iri else '') + rand_lit_segment(rng, iri, with_escapes)
+    parts = []
     for i in range(nrefs):
-        if rng.random() < 0.8 or i == 0:
-            parts.append(rand_lit_segment(rng, iri, with_escapes))
-        parts.append('{' + rng.choice(columns) + '}')
-    if rng.random() < 0.5:
-        parts.append(rand_lit_segment(rng, iri, with_escapes))
-    return ''.join(parts)
+        lit = rand_lit_segment(rng, iri, with_escapes) if (rng.random() < 0.7 or i < nrefs - 1) else ''
+        parts.append([rng.choice(columns), lit])
+    return {'pre': pre, 'parts': parts}
+
+
+def tpl_map(tpl, termtype):
+    return {'kind': 'template', 'tpl': tpl, 'value': render_tpl(tpl), 'termtype': termtype}
+
+
+def gen_template(rng, columns, iri, nrefs=None, with_escapes=True):
+    return render_tpl(gen_tpl(rng, columns, iri, nrefs, with_escapes))
 
 
 def rand_lit_segment(rng, iri, with_escapes):
     n = rng.randrange(0, 4)
     alphabet = 'abz09-._~/:#' if iri else 'ab z09-._~/:#!?'
     s = ''.join(rng.choice(alphabet) for _ in range(n))
-    if with_escapes and rng.random() < 0.15:
-        s += rng.choice(['\\{', '\\}', '\\{x\\}'])
+    if with_escapes and not iri and rng.random() < 0.15:
+        s += rng.choice(['{', '}', '{x}', '}{'])
     return s
 
 
@@ -152,9 +167,9 @@ def gen_termmap(rng, columns, position, value_kind):
         if r < 0.75:
             tm = {'kind': 'constant', 'value': 'http://ex.org/p/' + rng.choice('abcde')}
         elif r < 0.9:
-            tm = {'kind': 'template', 'value': gen_template(rng, columns, True, nrefs=1)}
+            tm = tpl_map(gen_tpl(rng, columns, True, nrefs=1), 'iri')
         else:
-            tm = {'kind': 'template', 'value': 'http://ex.org/p' + rng.choice('ab') + '/{' + rng.choice(columns) + '}'}
+            tm = tpl_map({'pre': 'http://ex.org/p' + rng.choice('ab') + '/', 'parts': [[rng.choice(columns), '']]}, 'iri')
         tm['termtype'] = 'iri'
     elif position == 'graph':
         if r < 0.5:
@@ -162,15 +177,15 @@ def gen_termmap(rng, columns, position, value_kind):
         elif r < 0.6:
             tm = {'kind': 'constant', 'value': 'DEFAULT'}
         elif r < 0.85:
-            tm = {'kind': 'template', 'value': gen_template(rng, columns, True, nrefs=1)}
+            tm = tpl_map(gen_tpl(rng, columns, True, nrefs=1), 'iri')
         else:
             tm = {'kind': 'reference', 'value': rng.choice(columns)}
         tm['termtype'] = 'iri'
     elif position == 'subject':
         if r < 0.7:
-            tm = {'kind': 'template', 'value': gen_template(rng, columns, True), 'termtype': 'iri'}
+            tm = tpl_map(gen_tpl(rng, columns, True), 'iri')
         elif r < 0.8:
-            tm = {'kind': 'template', 'value': 'b{' + rng.choice(columns) + '}', 'termtype': 'bnode'}
+            tm = tpl_map({'pre': 'b', 'parts': [[rng.choice(columns), '']]}, 'bnode')
         elif r < 0.9:
             tm = {'kind': 'constant', 'value': 'http://ex.org/s/' + rng.choice('abc'), 'termtype': 'iri'}
         else:
@@ -179,15 +194,15 @@ def gen_termmap(rng, columns, position, value_kind):
         if r < 0.3:
             tm = {'kind': 'reference', 'value': rng.choice(columns), 'termtype': 'literal'}
         elif r < 0.45:
-            tm = {'kind': 'template', 'value': gen_template(rng, columns, False), 'termtype': 'literal'}
+            tm = tpl_map(gen_tpl(rng, columns, False), 'literal')
         elif r < 0.65:
-            tm = {'kind': 'template', 'value': gen_template(rng, columns, True), 'termtype': 'iri'}
+            tm = tpl_map(gen_tpl(rng, columns, True), 'iri')
         elif r < 0.75:
             tm = {'kind': 'constant', 'value': 'http://ex.org/o/' + rng.choice('abc'), 'termtype': 'iri'}
         elif r < 0.85:
             tm = {'kind': 'constant', 'value': rng.choice(['lit', 'a b', 'x-1', '42']), 'termtype': 'literal'}
         elif r < 0.92:
-            tm = {'kind': 'template', 'value': 'n{' + rng.choice(columns) + '}', 'termtype': 'bnode'}
+            tm = tpl_map({'pre': 'n', 'parts': [[rng.choice(columns), '']]}, 'bnode')
         else:
             tm = {'kind': 'reference', 'value': rng.choice(columns), 'termtype': 'iri'}
         if tm['termtype'] == 'literal':
@@ -371,3 +386,19 @@ def nonprintable_of(strings):
             if not ch.isprintable():
                 s.add(ch)
     return ''.join(sorted(s))
+
+
+def doc_for_driver(doc, source_name='DS'):
+    """the abstract document as the Lean driver expects it (default graph by IRI, source section name)"""
+    d = json.loads(json.dumps(doc))
+    def fix(tm):
+        if tm.get('kind') == 'constant' and tm.get('value') == 'DEFAULT':
+            tm['value'] = RML + 'defaultGraph'
+    for tm in d['tms']:
+        tm.setdefault('source_name', source_name)
+        for g in tm['subject'].get('graphs', []):
+            fix(g)
+        for pom in tm['poms']:
+            for g in pom.get('graphs', []):
+                fix(g)
+    return d
